@@ -63,7 +63,7 @@ class ListHooks(Hooks):
         al = self._aliases(facts, v) - {v}
         keep = sorted(al)[0] if al else None
         out = set()
-        pat = re.compile(r'(?<![A-Za-z0-9_.>])%s(?![A-Za-z0-9_])' % re.escape(v))
+        pat = re.compile(r'(?<![A-Za-z0-9_.>#])%s(?![A-Za-z0-9_#])' % re.escape(v))
         for x in facts:
             if x[0] == 'same':
                 if v in (x[1], x[2]):
